@@ -87,6 +87,10 @@ def side_conditions(out):
     bad = []
     if out.get("input_unchanged") is False:
         bad.append("get_displacement_tensor modified its positions argument")
+    if out.get("history_same") is False:
+        bad.append("the table of this structure changed after other library calls on it in the same process (Classifier.classify, "
+                   "SBC.get_clusters, get_dimensionality, earlier get_displacement_tensor calls with other cutoffs) or after the caller "
+                   "overwrote arrays returned by an earlier call: the result is not a function of the input")
     if out.get("radii_ok") is False:
         bad.append("get_distances: dist_matrix_radii_mic != dist_matrix_mic - (r_i + r_j)")
     return bad
@@ -207,7 +211,7 @@ def impl_predicate(c):
 def replay_dict(c, fails, out, extra=None):
     G = X.G
     d = {"kind": "property-fails-on-implementation",
-         "case": {k: c[k] for k in ("cell", "pbc", "pos", "cutoff", "api", "cutoff_kind")},
+         "case": {k: c.get(k) for k in ("cell", "pbc", "pos", "cutoff", "api", "cutoff_kind", "history")},
          "units": "grid units of 2**-12 Angstrom",
          "call": "matid.geometry.%s(positions=pos/4096, cell=cell/4096, pbc=%s, cutoff=%s)" % (
              "get_distances" if c["api"] == "distances" else "get_displacement_tensor", list(c["pbc"]),
@@ -309,6 +313,10 @@ def run(ctx):
         pending = []
         next_id += take
         remaining -= take
+        for c in cases:
+            # process-history stream (no PRNG draw, so the case stream itself is unchanged): the same call is made before
+            # and after other library entry points ran on the structure and earlier results were overwritten by the caller
+            c.setdefault("history", (c["api"] == "distances" and c["id"] % 2 == 0) or (c["api"] == "tensor" and c["id"] % 10 == 0))
         tb = time.time()
         impl, modes = run_impl(cases)
         state["t_impl"] += time.time() - tb
@@ -323,6 +331,8 @@ def run(ctx):
         failing_cases += [(by_id[i], impl[i]) for i in failing]
         for c in cases:
             account(c, impl[c["id"]])
+            if c.get("history") and "history_same" in impl[c["id"]]:
+                dist["history_sequences"] = dist.get("history_sequences", 0) + 1
         state["total"] += len(cases)
         if sample is None:
             gen = [c for c in cases if "corpus" not in c]
@@ -408,6 +418,8 @@ def replay(ctx, rep):
     c["pbc"] = tuple(bool(x) for x in c["pbc"])
     c.setdefault("api", "tensor")
     c.setdefault("cutoff_kind", "replay")
+    if c.get("history") is None:
+        c["history"] = True
     fails, out = impl_predicate(c)
     if fails:
         ctx.violation(replay_dict(c, fails, out), found_input=True)
